@@ -538,6 +538,10 @@ class _ArrInterp(FinamInterp):
         short = name.split(".")[-1]
         if short in ("ravel", "reshape", "logical_not", "empty_like", "prod", "compress", "invert"):
             return _np_term(short, list(args), kwargs)
+        if short in ("isMaskedArray", "isMA", "is_masked_array") and args:
+            return self.masked_input and args[0] in (Sym("X"), Sym("X.magnitude"))
+        if short == "Quantity" and len(args) == 2:
+            return Sym("qty", args[0], args[1])
         if short in ("asarray", "asanyarray") and args and (kwargs.get("dtype", args[1] if len(args) > 1 else None) in (Sym("builtin", "bool"), Sym("ext", "bool"), "bool")):
             return Sym("asbool", args[0])
         return super().ext_call(name, args, kwargs, node)
